@@ -18,7 +18,12 @@ TB_COMMON = [
 
 def prepare(profiles=("debug",)):
     build_harness(profiles)
-    return regenerate_gen()
+    msg = regenerate_gen()
+    rc, out = lake_build(["eedriver"])
+    if rc != 0:
+        # the model no longer builds against the regenerated facts: a broken proof obligation, handled by the check
+        msg += "; eedriver build failed"
+    return msg
 
 
 def parse_req(s): return "PARSE\t" + hx(s)
@@ -405,3 +410,24 @@ def check_C05(c):
 
 
 CHECKS = {"C01": check_C01, "C02": check_C02, "C05": check_C05, "C10": check_C10, "C11": check_C11, "C12": check_C12}
+
+from . import checks2 as _c2
+CHECKS.update(_c2.CHECKS2)
+
+
+def replay(pid, path):
+    """Re-run the requests of a replay file against the current tree and the model and print both answers."""
+    body = json.load(open(path))
+    prepare(("debug",))
+    for case in body.get("cases", []):
+        reqs = case.get("requests") or ([case["request"]] if "request" in case else [])
+        if not reqs and "input_text" in case:
+            reqs = [parse_req(case["input_text"])]
+        reqs = [r for r in reqs if isinstance(r, str)]
+        if not reqs:
+            print(json.dumps(case, ensure_ascii=False)[:500])
+            continue
+        impl, model = both(reqs)
+        for r, a, b in zip(reqs, impl, model):
+            print("REQ  ", r[:300]); print(" impl", a[:300]); print(" model", b[:300])
+    return 0
